@@ -123,9 +123,18 @@ def _obs(v):
 
 
 def run(cfg, events):
-    """Returns the list of steps  event + [outs, rows]  (see module docstring)."""
+    """Returns the list of steps  event + [outs, rows]  (see module docstring).
+    In a third of the executions the recorded run is the SECOND simulation of the same design object, after a first
+    simulator has executed the same events on it: a memory holds its declared initial contents at
+    the start of every simulation, whatever happened to it in an earlier one."""
     d = Design(cfg)
-    sim = Simulator(d.m)
+    if (d.salt + len(events)) % 3 == 0:
+        first = Simulator(d.m)
+        _run_on(first, d, cfg, events)
+    return _run_on(Simulator(d.m), d, cfg, events)
+
+
+def _run_on(sim, d, cfg, events):
     clocks = Cat(d.cd["A"].clk, d.cd["B"].clk)
     signedw = cfg["w"] if cfg["signed"] else 0
     steps = []
